@@ -187,6 +187,8 @@ func Check(opts Options) int {
 	var knownList []any
 	os.RemoveAll(replayDir)
 
+	deadReturns, liveReturns := map[string]int{}, map[string]int{}
+	var unreachable []string
 	isKnown := func(name string) *finding {
 		for i := range findings {
 			f := &findings[i]
@@ -233,6 +235,16 @@ func Check(opts Options) int {
 		}
 		if o0.Cover {
 			nCover++
+			if !allOK && strings.Contains(name, "#cover.return.") {
+				// a return that is unreachable under the contracts (defensive error handling) is recorded,
+				// not reported: the function-level guard below requires at least one reachable return
+				deadReturns[o0.Func]++
+				unreachable = append(unreachable, name)
+				continue
+			}
+			if strings.Contains(name, "#cover.return.") {
+				liveReturns[o0.Func]++
+			}
 			if !allOK {
 				rp := writeReplay(replayDir, name, replayDoc(prop, worst, rr, "vacuity guard: the assumptions reaching this point are unsatisfiable (contradictory precondition/invariant or unreachable code)"))
 				viols = append(viols, violation{Obligation: name, Reason: "vacuity guard " + worst.V.Status, Replay: rp, NoInput: true})
@@ -280,6 +292,13 @@ func Check(opts Options) int {
 		}
 		rp := writeReplay(replayDir, name, doc)
 		viols = append(viols, violation{Obligation: name, Reason: reason, Replay: rp, NoInput: noInput})
+	}
+	for fn, n := range deadReturns {
+		if liveReturns[fn] == 0 && n > 0 {
+			rp := writeReplay(replayDir, fn+"#cover.returns", map[string]any{"property": prop, "obligation": fn + "#cover.returns", "verdict": "no-model",
+				"note": "no return of this function is reachable under its contract: postconditions would hold vacuously"})
+			viols = append(viols, violation{Obligation: fn + "#cover.returns", Reason: "all returns unreachable (vacuous contract)", Replay: rp, NoInput: true})
+		}
 	}
 	// baseline: every claimed obligation must still be generated
 	for _, bn := range base[prop] {
@@ -364,6 +383,7 @@ func Check(opts Options) int {
 			"vacuity_guards":          nCover,
 			"bounded_standins":        map[string]any{"obligations": nBounded, "ok": nBoundedOK, "note": "bounded stand-ins are not counted in obligations/discharged"},
 			"known_findings":          knownList,
+			"returns_unreachable_under_contracts": unreachable,
 			"samples":                 samples,
 			"solver_seconds_total":    round2(solverSecs),
 			"load_seconds":            round2(rr.LoadSecs),
